@@ -44,6 +44,7 @@ def _mk_ctor(ctor, R, diag):
         w.equal("mass=1", p.log_integral(), 0.0 * par["ld"])
         w.equal("Sigma-kept", p.Sigma, par["S"])
         w.equal("mu-kept", p.mu, par["mu"])
+        w.holds("is_normalized", p.is_normalized())                          # REAL
     return ob
 
 
@@ -69,6 +70,7 @@ def _mk_normalize(kind, R):
         u.normalize()                                                        # REAL (in place)
         w.equal("value", u.evaluate_ln(x), before - lnmass[:, None])
         w.equal("mass=1", u.log_integral(), 0.0 * lnmass)
+        w.holds("is_normalized", u.is_normalized())                          # REAL: lnZ == -ln_beta, exactly
     return ob
 
 
